@@ -29,6 +29,12 @@ def make_dirfile(d, enc, fa=2, fb=2, spf=SPF_A):
     db = bytes(i & 0xff for i in range(fb))
     if enc == "gzip":
         open(os.path.join(d, "a.gz"), "wb").write(gzip.compress(da)); open(os.path.join(d, "b.gz"), "wb").write(gzip.compress(db))
+    elif enc == "bzip2":
+        import bz2
+        open(os.path.join(d, "a.bz2"), "wb").write(bz2.compress(da)); open(os.path.join(d, "b.bz2"), "wb").write(bz2.compress(db))
+    elif enc == "lzma":
+        import lzma
+        open(os.path.join(d, "a.xz"), "wb").write(lzma.compress(da)); open(os.path.join(d, "b.xz"), "wb").write(lzma.compress(db))
     elif enc in ("text", "sie"):
         pass          # pre-populated through the library itself (see prepopulate)
     else:
@@ -123,6 +129,8 @@ def main():
             ("lib", "sie", ["write", None, "p:a:4", "p:b:1", "s", "p:a:5", "p:b:2", "f", "p:a:3", "m", "p:a:6"]),
             ("lib", "sie", ["write", None, "p:a:2", "p:a:1", "s", "p:a:3", "f", "p:a:2"], 1)]
     if chk.thorough:
+        scen.append(("lib", "bzip2", ["write", None, "p:a:6", "p:b:2", "s", "p:a:3", "f", "p:a:3", "p:b:1", "c", "p:a:6"]))
+        scen.append(("lib", "lzma", ["write", None, "p:a:6", "p:b:2", "s", "p:a:3", "f", "p:a:3", "p:b:1", "c", "p:a:6"]))
         for _ in range(12):
             scen.append(("raw-foreign", "none", ["rawwrite", None, "2", "1000", "6", str(rng.choice([18, 30, 45]))] + [str(c) for c in rand_chunks(9)]))
             scen.append(("lib", rng.choice(["none", "gzip"]), ["write", None] + lib_ops(12, ["s", "f", "m", "c"])))
@@ -151,7 +159,7 @@ def main():
             for tag in ("fresh", "held", "greedy"):
                 reader.stdin.write((tag + "\n").encode()); reader.stdin.flush()
                 res[tag] = reader.stdout.readline().decode()
-            fa = os.path.join(d, {"none": "a", "gzip": "a.gz", "text": "a.txt", "sie": "a.sie"}[enc])
+            fa = os.path.join(d, {"none": "a", "gzip": "a.gz", "text": "a.txt", "sie": "a.sie", "bzip2": "a.bz2", "lzma": "a.xz"}[enc])
             sz = os.path.getsize(fa) if os.path.exists(fa) else -1
             obs.append((label, parse_pass(res["fresh"]), parse_pass(res["held"]), parse_greedy(res["greedy"]), sz))
         stops = []
@@ -194,7 +202,7 @@ def main():
                     want = [1000 + i for i in range(p["nf"] * spf)]
                     if a is None or a["e"] != 0 or a["v"] != want:
                         spec_bad.append((K_SIEZERO if (enc == "sie" and tag == "fresh" and a is not None and a["e"] == 0 and len(a["v"]) == len(want) and a["v"][:-1] == want[:-1] and a["v"][-1] == 0) else
-                                         K_SIEHELD if (enc == "sie" and tag == "held" and a is not None and a["e"] == 0) else K_GZHELD if (enc == "gzip" and tag == "held" and a is not None and a["e"] == 0 and a["v"] == want[:len(a["v"])]) else "%s/%s/%s-frames-differ" % (kind, enc, tag),
+                                         K_SIEHELD if (enc == "sie" and tag == "held" and a is not None and a["e"] == 0) else K_GZHELD if (enc in ("gzip", "bzip2", "lzma") and tag == "held" and a is not None and a["e"] == 0 and a["v"] == want[:len(a["v"])]) else "%s/%s/%s-frames-differ" % (kind, enc, tag),
                                          "%s reader %s: %d frames reported but reading them gives %s (error %s) instead of the %d samples the writer wrote" % (
                                              tag, label, p["nf"], (a or {}).get("v", [])[:12], (a or {}).get("e"), len(want)), dict(desc, at=label, kind="impl-vs-spec", seen=p["raw"][:600])))
                     b = p["fields"].get("b")
